@@ -6,7 +6,7 @@ V = os.path.dirname(os.path.dirname(os.path.abspath(__file__)))
 c = collections.Counter(); conc = 0; proofonly = []; notc = []; tot = 0
 for f in sorted(glob.glob(os.path.join(V, "seeded", "*", "meta.json"))):
     m = json.load(open(f)); i = m["id"].split("-")[1]; tot += 1
-    rnd = 1 if i[0].isdigit() else {"r": 2, "t": 3, "u": 4, "v": 5}[i[0]]
+    rnd = 1 if i[0].isdigit() else {"r": 2, "t": 3, "u": 4, "v": 5, "w": 6}[i[0]]
     first = m.get("first_outcome")
     missed = (first and not first["caught"]) or (not first and ("missed at first" in m["needs_to_manifest"] or not m["check_outcome"]["caught"]))
     c[(rnd, "missed" if missed else "caught")] += 1
